@@ -577,7 +577,11 @@ def _run_case(ctx, chi, case):
     # ---- likelihood
     ll = call(cpm.compute_log_likelihood, params, obs, cov)
     ll = ll if isinstance(ll, str) else float(ll)
-    ctx.agree('C07.ll', ll, me[1], inp, rtol=1e-3 if tg_tail else 1e-9)
+    tg_atol = core.tg_cancellation_atol(th[:, 0, :], th[:, 1, :]) if (kind == 'TG' and scales_pos) else 0.0
+    if tg_atol < 1e-2:
+        ctx.agree('C07.ll', ll, me[1], inp, rtol=1e-3 if tg_tail else 1e-9, atol=tg_atol)
+    else:
+        ctx.branches.add('ll:TG:normalisation-below-float-resolution')
     ctx.branches.add('ll:%s:%s' % (kind, ll if isinstance(ll, str) else core.fclass(ll)))
     spec_ll = call(per_ind_ll, base, kind, th, obs)
     S(ctx, 'C07.equiv_ll/' + cname, core.close(ll, spec_ll), inp, {'chi': ll, 'per_individual': spec_ll})
